@@ -213,6 +213,30 @@ theorem region_length (probs : List α) (j : Nat) (hj : j < probs.length) :
   rw [List.take_succ_eq_append_getElem hj, List.sum_append]
   simp
 
+omit [LinearOrder α] [IsStrictOrderedRing α] in
+/-- **proportionality**: the stored probability of category `i` is its weight divided by the total weight. -/
+theorem normalize_getElem (ws : List α) (i : Nat) (hi : i < ws.length) :
+    (normalize ws)[i]'(by simpa [normalize] using hi) = ws[i] / ws.sum := by
+  simp [normalize, total_eq_sum]
+
+omit [LinearOrder α] [IsStrictOrderedRing α] in
+/-- a category has stored probability zero exactly when its weight is zero: normalisation neither creates nor removes
+    zero-probability categories (so "never a zero-probability category" is "never a zero-weight category"). -/
+theorem normalize_zero_iff (ws : List α) (h : ws.sum ≠ 0) (i : Nat) (hi : i < ws.length) :
+    (normalize ws)[i]'(by simpa [normalize] using hi) = 0 ↔ ws[i] = 0 := by
+  rw [normalize_getElem ws i hi, div_eq_zero_iff]
+  exact ⟨fun h' => h'.resolve_right h, Or.inl⟩
+
+omit [LinearOrder α] [IsStrictOrderedRing α] in
+/-- normalisation is invariant under rescaling of all weights by a non-zero constant (unnormalised weights). -/
+theorem normalize_scale (ws : List α) (c : α) (hc : c ≠ 0) : normalize (ws.map (c * ·)) = normalize ws := by
+  unfold normalize
+  rw [total_eq_sum, total_eq_sum, List.map_map, List.sum_map_mul_left]
+  apply List.map_congr_left
+  intro w _
+  simp only [Function.comp, List.map_id']
+  rw [mul_div_mul_left _ _ hc]
+
 end field
 
 /-! ### non-vacuity -/
